@@ -70,8 +70,10 @@ def parseConfig (j : Json) : Config :=
 def parseCase (j : Json) : P Case := do
   let r ← fld j "request"
   let req : Request := { deps := (arrD r "deps").toList.map parseFile, file := parseFile (← fld r "file") }
-  let yaml := match j.getObjVal? "yaml" with | .ok (.obj o) => parseConfig (.obj o) | _ => {}
   let ys := strD j "yamlState"
+  -- "blank:*": the file named by `config` exists and holds no YAML document (empty, comments only, blank lines): read as {}
+  let yaml := if ys.startsWith "blank" then {} else
+    match j.getObjVal? "yaml" with | .ok (.obj o) => parseConfig (.obj o) | _ => {}
   let st := if ys.startsWith "garbage" then YamlState.garbage else
     match ys with | "none" => YamlState.none | "missing" => .missing | _ => .ok
   pure { request := req, yaml := yaml, yamlState := st, cli := kvList j "cli" }
